@@ -31,7 +31,7 @@ def gen(inst, d=None, gen_body="INIT Init\nNEXT Next\nCHECK_DEADLOCK FALSE", tim
     d = d or tlc.workdir("gen_" + inst["name"])
     mod = "Gen_" + inst["name"]
     with open(os.path.join(d, mod + ".tla"), "w") as f:
-        f.write(instances.mc_module(inst, mod))
+        f.write(instances.mc_module(inst, mod, extends="Gen"))
     r, g = tlc.graph(d, mod, instances.mc_cfg(inst, gen_body), timeout=timeout)
     return d, r, g
 
